@@ -454,7 +454,7 @@ def gen_radix_cases(chk, run, tlc, tier, r):
             # 54 one bits, then zeros: exactly half-way, the even neighbour is the upper one
             shapes.append(("tie", ("f" * 13 + "c" + "0" * (k - 14)) if bits == 4 else ("1" + "7" * 17 + "6" + "0" * (k - 19))))
         for shape, text in shapes:
-            assert len(text) == k
+            assert len(text) == k + (shape == "one")
             e = c["o"][shape]
             try:
                 hv = float(int(text, 1 << bits))
